@@ -21,11 +21,13 @@ SKIPPED: list = []
 def run_gen(spec: dict, trace_path: Path, *, kill_at: int | None = None, shim_kill: int | None = None,
             shim_log: Path | None = None, watch: str | None = None, timeout: int = 900,
             n_devices: int = 1, maxarr: int = 0, kill_after: float | None = None, fs_delay_us: int = 0,
-            cwd: str | None = None):
+            cwd: str | None = None, no_x64: bool = False):
     """One OS process generation.  Returns (returncode, stderr tail)."""
     spec_path = trace_path.with_suffix(".spec.json")
     spec_path.write_text(json.dumps(spec))
     extra = {"MDPAX_VERIF_TRACE": str(trace_path), "MDPAX_VERIF_MAXARR": str(maxarr)}
+    if no_x64:
+        extra["VERIF_DRIVER_NO_X64"] = "1"
     if kill_at is not None:
         extra["MDPAX_VERIF_KILL_AT"] = str(kill_at)
     if fs_delay_us:
@@ -439,7 +441,7 @@ def run_scenario(sc: dict, workdir: Path):
                           shim_log=(base / f"gen{gi}.shim") if g.get("shim_kill") is not None or g.get("shim_log") or sc.get("shim_log") else None,
                           watch=A, n_devices=g.get("n_devices", 1), maxarr=100000 if sc.get("rtol") else 0,
                           kill_after=g.get("kill_after"), fs_delay_us=sc.get("fs_delay_us", 0),
-                          cwd=str(base) if sc.get("default_dir") else None)
+                          cwd=str(base) if sc.get("default_dir") else None, no_x64=bool(sc.get("no_x64")))
         events = read_events(tr)
         killed = rc == -9
         if rc not in (0, -9):
@@ -467,11 +469,11 @@ def reference_for(sc: dict, workdir: Path, extra_after: int = 5) -> Reference:
     tr = base / "ref.ndjson"
     kw = dict(sc["solver_kw"])
     kw["checkpoint_frequency"] = 0
-    ops = [{"op": "new"}, {"op": "solve", "k": 3000}] + [{"op": "solve", "k": 1}] * extra_after
+    ops = [dict({"op": "new"}, **(sc.get("new_op") or {})), {"op": "solve", "k": 3000}] + [{"op": "solve", "k": 1}] * extra_after
     if sc["kind"] == "PVI" and kw.get("clear_value_history_on_convergence", True):
         ops = ops[:2]
     rc, err = run_gen({"problem": sc["problem"], "kind": sc["kind"], "solver_kw": kw, "ops": ops}, tr,
-                      maxarr=100000 if sc.get("rtol") else 0)
+                      maxarr=100000 if sc.get("rtol") else 0, no_x64=bool(sc.get("no_x64")))
     if rc != 0:
         raise C.MachineryError(f"reference run failed: {err}")
     return Reference(read_events(tr), rtol=sc.get("rtol", 0.0))
